@@ -96,6 +96,6 @@ def run(tier, seed, replay=None):
                 if what:
                     ck.violation(what, c, stream='varargs', extra={'impl': r}, matcher=varargs_matcher)
             ck.coverage['varargs_stream'] = {'cases': len(va), 'outcomes': vh}
-    return CC.run('C06', tier, seed, replay, PROPS, judge, extra_streams=extra,
+    return CC.run('C06', tier, seed, replay, PROPS, judge, extra_streams=extra, extra_units=['Pedantic'],
                   rule_extra='; bare stream: the 15 bare forms x values; missing stream: generated signatures (1-4 parameters, def/async/method) '
                              'with one missing or bare annotation at a random position, conforming arguments by keyword')
